@@ -6,7 +6,9 @@ pub mod c02;
 pub mod c03;
 pub mod c06;
 pub mod c07;
+pub mod c08;
 pub mod c10;
+pub mod c15;
 
 pub fn dispatch(prop: &str, cfg: &Cfg) -> Option<(Log, Meta)> {
   Some(match prop {
@@ -15,6 +17,8 @@ pub fn dispatch(prop: &str, cfg: &Cfg) -> Option<(Log, Meta)> {
     "C03" => c03::run(cfg),
     "C06" => c06::run(cfg),
     "C07" => c07::run(cfg),
+    "C08" => c08::run(cfg),
+    "C15" => c15::run(cfg),
     _ => return None,
   })
 }
